@@ -124,16 +124,19 @@ class Interp(object):
             v.none = z3.Bool(name + '?none')
         return v
 
-    def fresh_list(self, base, ety):
+    def fresh_list(self, base, ety, upper='pre'):
+        """upper: 'pre' -- elements are objects that existed before the
+        script allocated anything; 'now' -- any object allocated so far;
+        None -- the caller defines the elements"""
         name = self.ex.fresh_name(base)
         n = z3.Int(name + '.len')
         self.ex.assume(n >= 0)
         arr = z3.Const(name + '.arr', z3.ArraySort(z3.IntSort(), sort_of(ety)))
         lst = SList(n, arr, ety, name)
-        if isinstance(ety, tuple) and ety[0] == 'obj':
+        if isinstance(ety, tuple) and ety[0] == 'obj' and upper is not None:
             j = z3.Int(name + '.j')
-            self.ex.hyp(ops.forall([j], z3.And(arr[j] >= 0,
-                                              arr[j] < _CONCRETE_REF_BASE),
+            top = _CONCRETE_REF_BASE if upper == 'pre' else self.next_ref + 1
+            self.ex.hyp(ops.forall([j], z3.And(arr[j] >= 0, arr[j] < top),
                                   patterns=[arr[j]]))
         return lst
 
@@ -397,7 +400,18 @@ class Interp(object):
         except Undecided:
             return False
 
+    _comp_alloc = None
+
     def alloc(self, cls):
+        ca = self._comp_alloc
+        if ca is not None:
+            # inside the element expression of a comprehension over a
+            # symbolic collection: element q gets reference base + 1 + q
+            if ca[2]:
+                self.undecided('more than one allocation per comprehension '
+                               'element')
+            ca[2] = 1
+            return Obj(cls, z3.IntVal(ca[0] + 1) + ca[1])
         self.next_ref += 1
         return Obj(cls, z3.IntVal(self.next_ref))
 
@@ -547,12 +561,17 @@ class Interp(object):
             if not is_concrete(kv):
                 if len(node.keys) != 1:
                     self.undecided('dict literal mixing symbolic keys', node)
-                kty, vty = ty_of(kv), ty_of(vv)
-                m = SMap(z3.Store(z3.K(sort_of(kty), z3.BoolVal(False)),
-                                  to_term(kv, kty), z3.BoolVal(True)),
-                         z3.Store(z3.K(sort_of(kty), to_term(vv, vty)),
-                                  to_term(kv, kty), to_term(vv, vty)),
-                         kty, vty, None, self.ex.fresh_name('dictlit'))
+                try:
+                    kty, vty = ty_of(kv), ty_of(vv)
+                    m = SMap(z3.Store(z3.K(sort_of(kty), z3.BoolVal(False)),
+                                      to_term(kv, kty), z3.BoolVal(True)),
+                             z3.Store(z3.K(sort_of(kty), to_term(vv, vty)),
+                                      to_term(kv, kty), to_term(vv, vty)),
+                             kty, vty, None, self.ex.fresh_name('dictlit'))
+                except Undecided:
+                    # one entry, structured value: no key can collide
+                    d.items[kv] = vv
+                    return d
                 return m
             d.items[kv] = vv
         return d
@@ -1270,6 +1289,8 @@ class Interp(object):
                 if self.ex.branch(nf):
                     self.raise_(AttributeError, "'NoneType' object has no "
                                 "attribute %r" % name)
+            if name == '__class__':
+                return v.cls          # A-heap: no subclass instances
             raw = self.class_attr(v.cls, name)
             if raw is not None and not _is_slot_descriptor(raw):
                 return self.bind(raw, v, v.cls)
@@ -2289,7 +2310,7 @@ class Interp(object):
         if isinstance(v, Obj):
             return self.fresh(nm, ('obj', v.cls), nullable=v.none is not None)
         if isinstance(v, SList):
-            return self.fresh_list(nm, v.ety)
+            return self.fresh_list(nm, v.ety, upper='now')
         if isinstance(v, SSet):
             return self.fresh_set(nm, v.ety)
         if isinstance(v, SMap):
@@ -2308,7 +2329,7 @@ class Interp(object):
                 self.undecided('cannot havoc empty container %s without a '
                                'type hint' % nm)
             if hint[0] == 'list':
-                return self.fresh_list(nm, hint[1])
+                return self.fresh_list(nm, hint[1], upper='now')
             if hint[0] == 'set':
                 return self.fresh_set(nm, hint[1])
             if hint[0] == 'map':
@@ -2452,6 +2473,9 @@ class Interp(object):
         # --- evaluate once at the bound index q, without forking
         self.ex.qdepth += 1
         self.qguards.append([])
+        heap0, none0 = dict(self.heap), dict(self.heap_none)
+        saved_ca = self._comp_alloc
+        ca = self._comp_alloc = [self.next_ref, q, 0]
         try:
             self.assign(g.target, seq.element(self, q), inner)
             conds = [ops.z3bool(self.truth_term(self.eval(c, inner)))
@@ -2462,9 +2486,12 @@ class Interp(object):
             else:
                 ev = self.eval(node.elt, inner)
         finally:
+            self._comp_alloc = saved_ca
             guards = self.qguards.pop()
             self.ex.qdepth -= 1
         in_range = z3.And(q >= 0, q < n)
+        if ca[2]:
+            self._close_comp_alloc(ca[0], q, n, heap0, none0, name, node)
         cond = z_and(*conds) if conds else True
         if guards:
             if self.ex.choose(2, tag=name) == 1:
@@ -2521,7 +2548,7 @@ class Interp(object):
             self._define_image(s.arr, ety, q, n, cond, et, name)
             return s
         if not conds:
-            lst = self.fresh_list(name, ety)
+            lst = self.fresh_list(name, ety, upper=None)
             self.ex.assume(lst.len == n)
             self.ex.hyp(ops.forall([q], z3.Implies(
                 in_range, z3.Select(lst.arr, q) == et),
@@ -2529,7 +2556,7 @@ class Interp(object):
             lst.defn = (q, et)
             return lst
         # filtered list: order-preserving bijection with the kept indices
-        lst = self.fresh_list(name, ety)
+        lst = self.fresh_list(name, ety, upper=None)
         m = lst.len
         src = z3.Function(name + '.src', z3.IntSort(), z3.IntSort())
         pos = z3.Function(name + '.pos', z3.IntSort(), z3.IntSort())
@@ -2552,6 +2579,44 @@ class Interp(object):
             patterns=[pos(q)]))
         lst.src, lst.pos = src, pos
         return lst
+
+    def _close_comp_alloc(self, base, q, n, heap0, none0, name, node):
+        """The element expression allocated one object per element (reference
+        base + 1 + q) and initialised its fields.  Generalise the field
+        arrays over q: inside the block (base, base + n] they hold what
+        element q wrote, outside they are unchanged.  Writes to anything but
+        the element's own object are not handled."""
+        self.ex.assume(n < _LOOP_REF_GAP)
+        self.next_ref = base + _LOOP_REF_GAP
+        own = z3.IntVal(base + 1) + q
+        r = z3.Int('r!' + name)
+        for store, old, tag in ((self.heap, heap0, ''),
+                                (self.heap_none, none0, 'none.')):
+            for key in list(store):
+                cur = store[key]
+                o = old.get(key)
+                if o is not None and cur.eq(o):
+                    continue
+                inner = cur
+                while z3.is_store(inner) and not (o is not None and inner.eq(o)):
+                    if not inner.arg(1).eq(own):
+                        self.undecided('comprehension element writes to an '
+                                       'object other than its own', node)
+                    inner = inner.arg(0)
+                if o is not None and not inner.eq(o):
+                    self.undecided('comprehension element replaces a field '
+                                   'array', node)
+                new = z3.Const('%s.%s%s.%s' % (name, tag, key[0], key[1]),
+                               cur.sort())
+                self.ex.hyp(ops.forall([q], z3.Implies(
+                    z3.And(q >= 0, q < n),
+                    z3.Select(new, own) == z3.simplify(z3.Select(cur, own))),
+                    patterns=[z3.Select(new, own)]))
+                self.ex.hyp(ops.forall([r], z3.Implies(
+                    z3.Or(r <= base, r > base + n),
+                    z3.Select(new, r) == z3.Select(inner, r)),
+                    patterns=[z3.Select(new, r)]))
+                store[key] = new
 
     def _define_image(self, arr, ety, q, n, cond, et, name):
         """arr = { et(q) | 0 <= q < n, cond(q) }"""
